@@ -1,0 +1,22 @@
+//go:build !verif
+
+package rueidis
+
+import (
+	"context"
+	"sync"
+)
+
+// No-op bodies of the verification trace hooks (the recording versions are in zz_verif_lts_on.go).
+
+func verifEv(kind, a, b int)              {}
+func verifEvUnlock(kind, a, b int)        {}
+func verifSeqLock()                       {}
+func verifYield(kind, a int)              {}
+func verifB(bool) int                     { return 0 }
+func verifTid(context.Context) int        { return 0 }
+func verifWid(wire) int                   { return 0 }
+func verifCmdID(Completed) int            { return 0 }
+func verifSlot(*ring, *node) int          { return 0 }
+func verifCondSlot(*ring, *sync.Cond) int { return 0 }
+func verifChID(chan RedisResult) int      { return 0 }
